@@ -91,7 +91,7 @@ CLAIMED = {
  "C13": dict(
    level="model_checking", design="§3 C13, §2.5",
    technique="exhaustive enumeration of fault schedules (drop, duplicate, late duplicate, reorder by one or two messages, connection break on the first 3 messages of the first 4 connections, <=1 / <=2 faults) over deterministic fair executions of the real Primary and Replica in discrete-event virtual time, with a recording applier as oracle",
-   text="The real replication.Primary (on a real engine, observer + poll + heartbeat loops) and the real replication.Replica (state machine, batch applier, engine applier on a second read-only engine) run over an in-memory link that replaces gRPC (bounded window, message copying, connection semantics). 34 scenarios (large values across the batch size, flushes in a row, a rejected oversized transaction between writes, single writes incl. delete, a 3-entry and a 130-entry transaction, flushes with log rotation, a lone write, writes arriving alone after the replica caught up; replica joins before/during/after the writes or is restarted; default and uncompressed configuration) x every fault vector within the bound: the sequence of entries handed to the replica's engine must equal the primary's log in order, none skipped, none applied twice; the reported applied sequence never decreases nor exceeds the highest applied entry. Part B: explicit-state search over every delivery sequence (depth 5 / 7) of the 15 whole-sequence batches of a 5-sequence history to the real WALBatchApplier and to the real Replica message handler, same oracle after every delivery plus: the in-order batch is applied completely, any other batch applies nothing, a forward gap is answered by a retransmission request.",
+   text="The real replication.Primary (on a real engine, observer + poll + heartbeat loops) and the real replication.Replica (state machine, batch applier, engine applier on a second read-only engine) run over an in-memory link that replaces gRPC (bounded window, message copying, connection semantics). 35 scenarios (a replica run and restarted by the real replication.Manager after a transaction, large values across the batch size, flushes in a row, a rejected oversized transaction between writes, single writes incl. delete, a 3-entry and a 130-entry transaction, flushes with log rotation, a lone write, writes arriving alone after the replica caught up; replica joins before/during/after the writes or is restarted; default and uncompressed configuration) x every fault vector within the bound: the sequence of entries handed to the replica's engine must equal the primary's log in order, none skipped, none applied twice; the reported applied sequence never decreases nor exceeds the highest applied entry. Part B: explicit-state search over every delivery sequence (depth 5 / 7) of the 15 whole-sequence batches of a 5-sequence history to the real WALBatchApplier and to the real Replica message handler, same oracle after every delivery plus: the in-order batch is applied completely, any other batch applies nothing, a forward gap is answered by a retransmission request.",
    note="Timer races are not explored in these runs (due-time order). One open known finding (restart re-applies the history)."),
  "C14": dict(
    level="model_checking", design="§3 C14, §2.5",
